@@ -55,7 +55,17 @@ inline ObjectHeaderBase * build(const Spec & s) {
     f.deflen = s.deflen;
     refl::dispatch(*o, f);
     if (s.code) o->objectType = static_cast<Vector::BLF::ObjectType>(s.code);
-    for (auto & kv : s.sel) rv::set_scalar(*o, kv.first, kv.second);
+    for (auto & kv : s.sel) {
+        size_t at = kv.first.find("@natural");
+        if (at == std::string::npos) { rv::set_scalar(*o, kv.first, kv.second); continue; }
+        /* an offset field relative to where the optional trailer really starts (= the size of the object without it):
+         * value 0,1,2 -> natural-1, natural, natural+1 */
+        std::string field = kv.first.substr(0, at);
+        rv::set_scalar(*o, field, 0);
+        o->objectSize = 0;
+        uint64_t natural = o->calculateObjectSize();
+        rv::set_scalar(*o, field, natural + kv.second - 1);
+    }
     normalise(*o);
     return o;
 }
@@ -79,10 +89,44 @@ inline SelAlts selectors(const std::string & cls) {
         SelAlts a;
         for (uint64_t off : {0ull, 1ull, 64ull, 0xffffffffull})
             for (uint64_t os : {0ull, 48ull, 0xffffffffull}) a.push_back({{"extDataOffset", off}, {"objectSize", os}});
+        /* the trailer exactly behind the payload (the natural place), one byte before and one byte too far */
+        for (uint64_t d : {0ull, 1ull, 2ull}) a.push_back({{"extDataOffset@natural", d}});
         a.push_back({});
         return a;
     }
     return {{}};
+}
+
+/* hand-written like the selector table: the fields that the layout variant a Spec selects must serialise by the format
+ * (the layout map only says what the library under test does serialise; a writer and a reader that agree on dropping an
+ * optional part would otherwise go unnoticed) */
+inline std::vector<std::string> required_fields(const Spec & s, ObjectHeaderBase & o) {
+    std::vector<std::string> r;
+    std::string cls = s.cls->name;
+    auto sel = [&](const std::string & k, uint64_t dflt) { for (auto & kv : s.sel) if (kv.first == k) return kv.second; return dflt; };
+    if (cls == "CanFdMessage64" || cls == "CanFdErrorFrame64") {
+        bool ext = false;
+        for (auto & kv : s.sel) {
+            if (kv.first == "extDataOffset@natural") ext = kv.second <= 1;            /* natural-1, natural: fits */
+            if (kv.first == "extDataOffset") ext = kv.second == 1 || kv.second == 64;  /* in front of the natural place */
+        }
+        if (ext) { r.push_back("btrExtArb"); r.push_back("btrExtData"); }
+    }
+    if (cls == "LinMessage2") {
+        uint64_t v = sel("apiMajor", 0);
+        if (v >= 2) r.push_back("respBaudrate");
+        if (v >= 3) { r.push_back("exactHeaderBaudrate"); r.push_back("earlyStopbitOffset"); r.push_back("earlyStopbitOffsetResponse"); }
+    }
+    if (cls == "EthernetStatus" && sel("apiMajor", 0) >= 2) { r.push_back("reservedEthernetStatus1"); r.push_back("reservedEthernetStatus2"); }
+    if (cls == "LinMessage" && sel("reservedLinMessage2_present", 0) == 1) r.push_back("reservedLinMessage2");
+    if (cls == "LinSendError2" && sel("reservedLinSendError3_present", 0) == 1) r.push_back("reservedLinSendError3");
+    if (auto * ce = dynamic_cast<Vector::BLF::CanErrorFrame *>(&o)) if (ce->length > 0) r.push_back("reservedCanErrorFrame");
+    if (auto * se = dynamic_cast<Vector::BLF::SerialEvent *>(&o)) {
+        if (se->flags & Vector::BLF::SerialEvent::SingleByte) r.push_back("singleByte.byte");
+        else if (se->flags & Vector::BLF::SerialEvent::CompactByte) { r.push_back("compact.compactLength"); r.push_back("compact.compactData"); }
+        else { r.push_back("general.dataLength"); r.push_back("general.timeStampsLength"); }
+    }
+    return r;
 }
 
 struct ClassVars {
